@@ -1658,7 +1658,10 @@ partial def loop (hin hout : IO.FS.Stream) (w : World) : IO Unit := do
   if line.isEmpty then
     hout.flush
     return ()
-  let (w', out) := step w line
+  -- `actdrop …`: a request whose caller stopped waiting; it is applied like `act …`, its reply is lost
+  let (w', out) :=
+    if line.startsWith "actdrop " then ((step w ("act " ++ (line.drop 8).toString)).1, "abandoned")
+    else step w line
   hout.putStrLn out
   loop hin hout w'
 
